@@ -181,8 +181,9 @@ class Alignment(AbstractAlignment):
         return iter(self.unitary_alignments)
 
     def take_until_limit(self, x_limit):
-        for unitary_alignment in sorted(self.unitary_alignments, key=lambda unit_align: unit_align.bounds[1]):
-            if unitary_alignment.bounds[1] > x_limit:
+        for i, unitary_alignment in enumerate(sorted(self.unitary_alignments, key=lambda unit_align: unit_align.bounds[1])):
+            # The leftmost unitary alignment is always taken, so that the caller always makes progress.
+            if i > 0 and unitary_alignment.bounds[1] > x_limit:
                 break
             yield unitary_alignment
 
